@@ -29,7 +29,9 @@ def run_property(prop, tier, seed, only=None, verbose=False):
     obligations = []
     for c in contracts:
         try:
-            if getattr(c, 'native', False):
+            if hasattr(c, 'decide'):
+                cr = c.decide()
+            elif getattr(c, 'native', False):
                 from pyvc.native import generate_native
                 cr = generate_native(c)
             else:
